@@ -21,7 +21,7 @@ impl std::error::Error for SErr {}
 pub struct Rec {
     pub kind: u8, // 0 nothing, 1 tuple, 2 seq, 3 something else
     pub announced: usize,
-    pub elems: [u32; 12],
+    pub elems: [u32; 40],
     pub n: usize,
     pub ended: bool,
 }
@@ -45,7 +45,7 @@ impl<'a> Serializer for &'a mut Rec {
         serialize_unit_struct(&'static str); serialize_unit_variant(&'static str, u32, &'static str);
     }
     fn serialize_u32(self, v: u32) -> Result<(), SErr> {
-        assert!(self.n < 12);
+        assert!(self.n < 40);
         self.elems[self.n] = v;
         self.n += 1;
         Ok(())
@@ -83,7 +83,7 @@ impl<'a> SerializeTuple for &'a mut Rec {
 pub fn serializes<T, N: ArrayLength, const R: usize>() {
     let n = N::USIZE;
     let a: GenericArray<u32, N> = GenericArray::generate(|_| any_u32());
-    let mut rec = Rec { kind: 0, announced: 0, elems: [0; 12], n: 0, ended: false };
+    let mut rec = Rec { kind: 0, announced: 0, elems: [0; 40], n: 0, ended: false };
     let r = a.serialize(&mut rec);
     assert!(r.is_ok());
     assert!(rec.kind == 1, "not serialised as a tuple (a sequence would carry a length prefix)");
@@ -304,6 +304,11 @@ pub mod q {
     c17_lattice! { deserializes; n0: U0, 5; n1: U1, 6; n3: U3, 8; }
     c17_lattice! { deserializes_in_place; n0: U0, 5; n1: U1, 6; n3: U3, 8; }
     c17_lattice! { deserializes_zst; n0: U0, 5; n1: U1, 6; n3: U3, 8; }
+}
+// lengths beyond the sizes serde's own array (32) and tuple (16) impls stop at: a switch of encoding there is invisible below
+pub mod ql {
+    c17_lattice! { serializes; n17: U17, 21; n33: U33, 37; }
+    c17_lattice! { deserializes; n17: U17, 22; n33: U33, 38; }
 }
 pub mod t {
     c17_lattice! { serializes; n2: U2, 6; n4: U4, 8; n8: U8, 12; }
